@@ -93,6 +93,10 @@ fn main() {
     let code = dispatch!(id.as_str(), mk, replay,
         "C01" => c01,
         "C02" => c02,
+        "C04" => c04,
+        "C12" => c12,
+        "C13" => c13,
+        "C14" => c14,
     );
     driver::cleanup_scratch();
     std::process::exit(code);
